@@ -21,9 +21,10 @@ EXTENDS JA3Ops
 
 CONSTANTS N          \* length bound of the list in focus
 
-CipherSyms == {2570, 64250, 4865, 49199}
-ExtSyms    == {2570, 64250, 0, 10, 11, 23}
-GroupSyms  == {2570, 64250, 29, 23}
+\* 6698 = 0x1a2a and 2586 = 0x0a1a look like GREASE nibble-wise (0x?a?a) but are not: they must be kept
+CipherSyms == {2570, 64250, 4865, 49199, 6698}
+ExtSyms    == {2570, 64250, 0, 10, 11, 23, 2586}
+GroupSyms  == {2570, 64250, 29, 23, 6698}
 PointSyms  == {0, 1, 2}
 Versions   == {769, 771}
 
